@@ -20,6 +20,7 @@ import time
 import common
 import c05_gen as g
 import c05_prog
+import c05_decl
 
 PYVER = (3, 12)
 
@@ -808,19 +809,31 @@ def run(res):
       "the printer never produces; (3) random signatures (positional-only, defaults, *args, keyword-only, **kwargs, "
       "self/cls in and out of a class, mutated parameters) printed as a function or method; (4) stubs emitted by "
       "io.generate_pyi for generated programs; (5) whole stubs built from (1)+(3) (constants, overloads, classes with "
-      "bases/methods/nested classes, aliases, TypeVars). A case is non-trivial if its type/signature has a subscript or "
-      "union; distinct by its printed text.")
+      "bases/methods/nested classes, aliases, TypeVars); (6) DECLARATIONS AND UNITS against the Coq model of coq/Print/Decl.v: "
+      "random units (TypeVars with constraints/bounds in any order, every 5th unit TypeVar-only with typing constructs that occur "
+      "nowhere else; aliases; constants with and without `= ...`; functions with 1-3 signatures, explicit/duplicated decorators, "
+      "final/abstract/coroutine flags, mutated parameters and raise lines; classes with object/Generic/Protocol/multiple bases, "
+      "metaclass=/total= keywords, decorators, __slots__, nested classes to depth 2, Annotated property constants, methods of "
+      "every kind incl. __new__/__init_subclass__/__init__): printed lines, re-read declarations, canonical form, re-printed "
+      "lines and the re-read of the re-printed stub are each compared with the model. A case is non-trivial if its "
+      "type/signature has a subscript or union, a unit if it has a class or function; distinct by its printed text.")
   res.assumptions = [
       "characters and Python's tokenizer/ast.parse are not modelled: the model works on tokens; the harness tokenises the real "
       "text with `tokenize` (dotted names and signed numbers merged) — exercised on every case",
-      "import bookkeeping (_Imports, collision renaming), module/class layout, decorators, raise lines, ParamSpec/Concatenate, "
-      "the substring heuristics of the printer (`Concatenate` in args, regex on cls) are outside the model; they are exercised "
-      "only by the end-to-end fixed-point oracle on emitted and generated stubs",
+      "import bookkeeping (_Imports, collision renaming, aliases that are imports), ParamSpec/Concatenate/TypeVar defaults, typing.Self, "
+      "NamedTuple/TypedDict forms, aliases in class bodies, alias expansion through Definitions.type_map and _maybe_resolve_alias, "
+      "last-definition-wins for repeated names, setter/deleter decorators, the dotted Outer.Inner spelling of an annotated self "
+      "in nested classes, the substring heuristics of the printer (`Concatenate` in args) are outside the model; they are exercised "
+      "only by the end-to-end fixed-point oracle on emitted and generated stubs (imports additionally by the direct oracle "
+      "`every typing name used in a generated unit is imported by it`)",
+      "declarations: the block structure (indentation -> suites) is CPython's tokenizer; the harness rebuilds it from the "
+      "indentation of the real text; keywords are name tokens with reserved ids; the ids of TypeVar names are allocated in string "
+      "order (the printer sorts the TypeVar lines as strings, the model by id); the string argument of TypeVar('T') is an opaque "
+      "literal id (the reader's check name == literal is character level)",
       "extraction via ExtrOcamlBasic; generator, tokeniser and differ in harness/props/c05*.py",
-      "class and module LAYOUT (__slots__, class/method decorators, metaclass/total keywords, Generic/Protocol bases, nested "
-      "classes, NamedTuple/TypedDict classes, class aliases, typing.Self, ParamSpec, empty classes, section order) is not in the "
-      "Coq model: it goes through the direct oracle only (emitted/generated stub parses, passes VerifyVisitor, is a fixed "
-      "point of parse-then-print, declarations structurally equal incl. slots/decorators/keywords/method kinds and flags)",
+      "class and module layout is in the Coq model (coq/Print/Decl.v) for the dialect above; NamedTuple/TypedDict classes, class "
+      "aliases, typing.Self, ParamSpec go through the direct oracle only (emitted/generated stub parses, passes VerifyVisitor, is a "
+      "fixed point of parse-then-print, declarations structurally equal incl. slots/decorators/keywords/method kinds and flags)",
   ]
   phase = {}
   tp = time.time()
@@ -832,7 +845,11 @@ def run(res):
   res.trusted_base += ["Coq extraction (ExtrOcamlBasic only) + OCaml ocamlopt + harness/ocaml/print_driver.ml",
                        "CPython's tokenize/ast.parse (the stub reader's front end)"]
   phase["extract+bootstrap"] = round(time.time() - tp, 1); tp = time.time()
+  exe_decl = common.build_extracted("decl", "Extract/ExtractDecl.v",
+                                    os.path.join(common.VERIF, "harness", "ocaml", "decl_driver.ml"), ["decl_model"])
+  res.trusted_base += ["harness/ocaml/decl_driver.ml + harness/props/c05_decl.py (statement trees from indentation, id table)"]
   model = Model(exe)
+  model_decl = Model(exe_decl)
   impl = Impl()
   pytd = impl.pytd
   thorough = res.tier == "thorough"
@@ -840,6 +857,8 @@ def run(res):
   ids_global = ids
   r = common.rng(res.seed, "c05")
   gen = g.Gen(r, ids)
+  for x in sorted(gen.tvars):          # ids of TypeVar names in string order (coq/Print/Decl.v sort_tps)
+    ids.id(x)
   tvars = gen.tvars
   env = [ids.id(x) for x in tvars]
   hist = collections.Counter()
@@ -864,7 +883,7 @@ def run(res):
   def disagree(kind, detail):
     nonlocal n_mism
     n_mism += 1
-    if len(mism) < 5:
+    if len(mism) < 5 or (kind.startswith(("unit-", "decl-")) and len(mism) < 9):
       mism.append("%s: %s" % (kind, detail[:600]))
 
   # ---------------- corpus first ----------------
@@ -1117,6 +1136,18 @@ def run(res):
 
   res.obligation("correspondence:model-vs-printer-and-reader", n_mism == 0,
                  "%d disagreements; first: %s" % (n_mism, " || ".join(mism)))
+
+  # ---------------- (6) declarations and whole units against coq/Print/Decl.v ----------------
+  n_before = n_mism
+  mism_before = len(mism)
+  rd = common.rng(res.seed, "c05decl")
+  dg = c05_decl.DeclGen(rd, ids, g.Gen(rd, ids), tvars, res.known)
+  n_units, n_wf_units = c05_decl.check_units(res, model_decl, impl, ids, dg, 2500 if thorough else 260, hist, report,
+                                             unknown_violation, disagree, (oracle_text, explain_diff, diff_causes, err_cause))
+  res.extra["decl_units"] = {"cases": n_units, "wf": n_wf_units}
+  res.obligation("correspondence:declarations-and-units-vs-printer-and-reader", n_mism == n_before,
+                 "%d disagreements; first: %s" % (n_mism - n_before, " || ".join(mism[mism_before:])))
+  phase["decl-units"] = round(time.time() - tp, 1); tp = time.time()
 
   # ---------------- (4) stubs emitted for generated programs ----------------
   from pytype import config, io, load_pytd, utils
